@@ -99,6 +99,12 @@ def cases_for(afi: int):
         add('path-information', pid, legal, f'route {base_prefix} next-hop {nh} path-information {pid}', i)
     for o, legal, val in (('igp', True, 0), ('egp', True, 1), ('incomplete', True, 2), ('IGP', True, 0), ('bogus', False, None), ('3', False, None)):
         add('origin', o, legal, f'route {base_prefix} next-hop {nh} origin {o}', intent(origin=val) if legal else None)
+    if afi == 1:
+        # an attribute set which just fits / just does not fit a 4096 octet message (1000 / 1012 communities; 1000 leaves room for LOCAL_PREF, a path identifier and a 4-octet AS path): RFC-legal (the
+        # attribute length field holds 65535) and sendable on an extended-message session
+        for count, pos in ((1000, 'fits-4096'), (1012, 'over-4096')):
+            comms = [(65000, i) for i in range(count)]
+            add('attribute-size', pos, True, f'route {base_prefix} next-hop {nh} community [ ' + ' '.join(f'{a}:{b}' for a, b in comms) + ' ]', intent(communities=comms))
     # structural faults
     add('structure', 'missing-nexthop-value', False, f'route {base_prefix} next-hop', None)
     add('structure', 'missing-bracket', False, f'route {base_prefix} next-hop {nh} community [ 1:1', None)
@@ -560,6 +566,8 @@ def run_shard(desc):
                 if not raws:
                     res.violation(f'C18/accepted-but-nothing-sent:{case["field"]}:{case["pos"] if case["field"] != "grammar" else "grammar"}', f'accepted definition produces no UPDATE under {key}', dict(wit, session=key), cls)
                     ok = False
+                    if case['field'] == 'attribute-size':
+                        continue  # the sessions which can hold it are still asked to send it as written
                     break
                 exp = gt.expected_wire(case['intent'], s)
                 sub = Result()
@@ -572,6 +580,8 @@ def run_shard(desc):
             if ok:
                 res.ok(cls, (case['field'], case['pos'], surface, 'accepted'))
                 res.ok('encoded-under-all-sessions')
+            elif case['field'] == 'attribute-size':
+                res.ok('attribute-size:extended-sessions-judged')
         res.sample({'text': case['text'], 'legal': case['legal']}, limit=4)
     try:
         run_sequence(res, desc, mine)
